@@ -15,14 +15,15 @@ MC_BaseCalls == <<
     Call("SBin", 4, 5, "+", NoLit, 0, 0, 0, ""),
     Call("Slice", 3, 0, "", NoLit, NoneI, NoneI, -1, ""),
     Call("Slice", 3, 0, "", NoLit, 1, 3, NoneI, ""),
+    Call("Slice", 3, 0, "", NoLit, NoneI, NoneI, 2, ""),
     Call("SBin", 1, 2, "+", NoLit, 0, 0, 0, ""),
     Call("VBinLit", 3, 0, "+", LitS("int", Q(1, 1)), 0, 0, 0, ""),
     Call("SBinLit", 1, 0, "+", LitS("int", Q(10, 1)), 0, 0, 0, "")
   >>
 MC_AllNames == {<<"s">>, <<"t">>, <<"x", 0>>, <<"x", 1>>, <<"x", 2>>}
-MC_En == {"Sum", "LinComb", "SBin", "SBinLit", "SNeg", "VBinLit", "VNeg", "Index", "CmpLit", "Cmp", "Problem", "Dot"}
+MC_En == {"Sum", "LinComb", "SBin", "SBinLit", "SNeg", "VBinLit", "VNeg", "Index", "CmpLit", "Cmp", "Problem"}
 MC_EnMax == MC_En \cup {"Maximize"}
-MC_Exprs == {"Sum", "LinComb", "SBin", "SBinLit", "SNeg", "VBinLit", "VNeg", "Index", "Dot"}
+MC_Exprs == {"Sum", "LinComb", "SBin", "SBinLit", "SNeg", "VBinLit", "VNeg", "Index"}
 MC_Stages == << MC_Exprs, {"CmpLit", "Cmp"}, {"Problem"} >>
 MC_StagesDeep == << MC_Exprs, MC_Exprs, {"CmpLit", "Cmp"}, {"Problem"} >>
 MC_FinalEn == {}
